@@ -21,4 +21,18 @@ PROPS = {
             "A-PATHLIB PurePosixPath(job).parent/.name invert posixpath.join on normalised absolute step names (axiom job_name_splits; validated exhaustively on small paths)",
         ],
     },
+    "C17": {
+        "category": "proof",
+        "harness_modes": [],
+        "explanation": "RollbackFailureManager._update_request is proved to raise FailureHandlingException (without counting or notifying) exactly when "
+        "version >= max_retries and otherwise to increment the counter by one and send one ROLLBACK notification, preserving version <= max_retries; "
+        "get_request is proved to hand back the same request object (the counter is never reset); DummyFailureManager.recover is proved never to return "
+        "and to raise the very exception it was given; the try statement of the @recoverable wrapper is proved to call failure_manager.recover exactly "
+        "once for a generic failure, never for cancellation/interrupt/unrecoverable exceptions, and never to swallow an exception raised by recover. "
+        "NOT decided: that the workflow raises 'instead of hanging' (liveness), and the call sites of get_request/_update_request in _recover.",
+        "assumptions": [
+            "assumed contracts: Scheduler.notify_status (ghost notification counter), FailureManager.recover and the wrapped coroutine `func` (ghost counters; one representative exception class per except clause), asyncio.Lock()",
+            "recoverable.wrapper: only its try statement is verified (mechanically extracted); the argument-discovery statements before it are dropped and `step`, `job` are taken as parameters",
+        ],
+    },
 }
